@@ -55,7 +55,22 @@ structure Sess where
   model : Option St := none       -- model state (none: no episode, or episode diverged)
   impl : Option St := none        -- last state printed by the implementation
   monitored : Bool := false       -- r ≥ 0 ∧ d ≥ 0: the theorems' hypothesis
+  reports : List (String × Bool) := []   -- last availability report per endpoint since it was (re)added
+  r : Int := 0
+  d : Int := 0
   deriving Inhabited
+
+/-- the history record behind "known to be available": an endpoint counts as available exactly when the
+    last report for it, since it was (re)added to the list, said so -/
+def updReports (reports : List (String × Bool)) (pre : St) (op : Op) (out : Out) : List (String × Bool) :=
+  match op with
+  | .setAvail e v => if (ids pre.eps).contains e then (reports.filter fun p => p.1 != e) ++ [(e, v)] else reports
+  | .setEndpoints l => if out == .ok then reports.filter fun p => l.contains p.1 else reports
+  | _ => reports
+
+def statusMatchesReports (reports : List (String × Bool)) (post : St) : Bool :=
+  post.eps.all fun e =>
+    (e.status == .available) == ((reports.find? fun p => p.1 == e.id).map (·.2) == some true)
 
 def parseOp (toks : List String) : Option Op :=
   match toks with
@@ -107,25 +122,34 @@ def handle (sess : Sess) (rep : Report) (ln : Nat) (toks : List String) (obs : S
       | some s =>
         let mine := s!"ok ; {digest s}"
         if mine == obs then
-          ({ model := some s, impl := parseDigest r d dig, monitored := r ≥ 0 && d ≥ 0 }, rep)
-        else ({}, { rep.msg s!"DIVERGE line={ln} model={mine} impl={obs}" with diverged := rep.diverged + 1 })
+          ({ model := some s, impl := parseDigest r d dig, monitored := r ≥ 0 && d ≥ 0, r := r, d := d }, rep)
+        else ({ model := none, impl := parseDigest r d dig, monitored := r ≥ 0 && d ≥ 0, r := r, d := d },
+              { rep.msg s!"DIVERGE line={ln} model={mine} impl={obs}" with diverged := rep.diverged + 1 })
     | _, _ => (sess, rep.msg s!"BAD line={ln}")
   | _ =>
-    match sess.model, parseOp toks with
-    | some s, some op =>
-      let (s', out) := step s op
-      let mine := s!"{outStr out} ; {digest s'}"
-      let implPost := parseDigest s.r s.d dig
-      -- monitors and evidence counters run on what the implementation printed
-      let rep := match sess.impl, implPost, parseOut outS with
+    match parseOp toks with
+    | none => (sess, rep.msg s!"BAD line={ln}")
+    | some op =>
+      if sess.impl.isNone then (sess, rep.bump "me.skipped_no_episode") else
+      let implPost := parseDigest sess.r sess.d dig
+      -- monitors and evidence counters run on what the implementation printed — also after the model
+      -- has been lost to a divergence earlier in the episode
+      let (rep, reports) := match sess.impl, implPost, parseOut outS with
         | some pre, some post, some o =>
+          let reports := updReports sess.reports pre op o
           let rep := if sess.monitored then runMonitors rep ln pre op o post else rep
-          interesting rep pre op post
-        | _, _, _ => rep.msg s!"UNPARSED line={ln} obs={obs}"
-      if mine == obs then ({ sess with model := some s', impl := implPost }, rep)
-      else ({ sess with model := none, impl := implPost },
-            { rep.msg s!"DIVERGE line={ln} model={mine} impl={obs}" with diverged := rep.diverged + 1 })
-    | none, some _ => (sess, rep.bump "me.skipped_after_divergence")
-    | _, none => (sess, rep.msg s!"BAD line={ln}")
+          let rep := if sess.monitored && !statusMatchesReports reports post then
+              { rep.msg s!"MONITOR property=C13 clause=status_matches_reports line={ln}" with monitorFails := rep.monitorFails + 1 }
+            else rep
+          (interesting rep pre op post, reports)
+        | _, _, _ => (rep.msg s!"UNPARSED line={ln} obs={obs}", sess.reports)
+      match sess.model with
+      | some s =>
+        let (s', out) := step s op
+        let mine := s!"{outStr out} ; {digest s'}"
+        if mine == obs then ({ sess with model := some s', impl := implPost, reports := reports }, rep)
+        else ({ sess with model := none, impl := implPost, reports := reports },
+              { rep.msg s!"DIVERGE line={ln} model={mine} impl={obs}" with diverged := rep.diverged + 1 })
+      | none => ({ sess with impl := implPost, reports := reports }, rep.bump "me.monitored_after_divergence")
 
 end GcpVerif.Driver.MEDrv
